@@ -17,6 +17,8 @@ from symx.core import Explorer
 core.ARITH_SOLVER = getattr(mod, "OPTS", {}).get("quick", {}).get("arith_solver")
 items = mod.items("quick", random.Random(0))
 random.Random(1).shuffle(items)
+if os.environ.get("COV_PARAM_FILTER"):
+    items = [it for it in items if os.environ["COV_PARAM_FILTER"] in json.dumps(it["params"])]
 if len(sys.argv) > 4:
     sh, nsh = [int(x) for x in sys.argv[4].split("/")]
     items = items[sh::nsh]
